@@ -24,7 +24,7 @@ PLAN = {
     "thorough": {"shards": 16, "shard_timeout": 3600, "case_timeout": 60, "grammars": 7000, "max_case_timeouts": 80},
 }
 THRESHOLDS = {
-    "quick": {"arguments_compared": 5000, "end_of_history_compared": 3000, "step_applications": 800, "tree_nodes_snapshotted": 20000, "kind:tree": 500, "kind:ge": 300, "kind:sge": 300, "kind:dsge": 300, "kind:stack": 100, "set:step_kinds": 8},
+    "quick": {"arguments_compared": 5000, "end_of_history_compared": 3000, "step_applications": 800, "tree_nodes_snapshotted": 20000, "kind:tree": 500, "kind:ge": 300, "kind:sge": 300, "kind:dsge": 300, "kind:stack": 100, "set:step_kinds": 8, "lazy_dsge_sessions": 50, "operator_arguments_never_mapped": 100},
     "thorough": {"arguments_compared": 100000, "end_of_history_compared": 60000, "step_applications": 15000},
 }
 
@@ -36,6 +36,7 @@ def gen_cases(tier, seed):
             yield {"kind": "ops", "desc": desc, "repr": rk, "decider": dk, "extra_depth": rng.choice([1, 2, 3]), "seed": rng.randrange(10**6), "nops": rng.randint(12, 30)}
         # dSGE genotypes grow on demand: aliasing between a child and a parent only shows when the child is mapped later
         yield {"kind": "ops", "desc": desc, "repr": "dsge", "decider": "own", "extra_depth": rng.choice([2, 3, 4]), "seed": rng.randrange(10**6), "nops": 40, "crossover_heavy": True}
+        yield {"kind": "ops", "desc": desc, "repr": "dsge", "decider": "own", "extra_depth": rng.choice([1, 2, 3]), "seed": rng.randrange(10**6), "nops": 24, "lazy": True}
         rk = rng.choice(workload.REPRS)
         yield {"kind": "steps", "desc": desc, "repr": rk, "decider": rng.choice(["maxdepth", "pigrow", "progressive"]), "extra_depth": rng.choice([1, 2, 3]), "seed": rng.randrange(10**6), "pop": rng.choice([2, 3, 5, 8, 11]), "gens": rng.randint(3, 12), "multi": rng.random() < 0.3}
 
@@ -81,7 +82,18 @@ def snap_genotype(kind, model, g, rec=None):
         return snap_tree(model, g, rec)
     if kind in ("ge", "stack"):
         return (id(g.dna), tuple(g.dna))
-    return tuple((str(k), id(v), tuple(v)) for k, v in g.dna.items())
+    # keys are type objects; two different keys may PRINT alike (unions over look-alike annotations): keep them apart
+    return tuple((f"{k}#{id(k)}", id(v), tuple(v)) for k, v in g.dna.items())
+
+
+def dsge_extends(s0, s1):
+    """dSGE: s1 is s0 after on-demand extension by a MAPPING - same list objects, every old gene in place, new genes
+    (and new keys) only appended."""
+    d1 = {k: (i, genes) for k, i, genes in s1}
+    for k, i, genes in s0:
+        if k not in d1 or d1[k][0] != i or d1[k][1][: len(genes)] != genes:
+            return False
+    return True
 
 
 def snap_individual(kind, model, ind, rec=None):
@@ -161,6 +173,8 @@ def run_ops(ctx, case, rec):
     def before(op, inputs):
         return [snap_genotype(kind, model, g, rec) for g in inputs]
 
+    lazy = bool(case.get("lazy"))  # dSGE genotypes reach the operators WITHOUT having been mapped before
+
     def on_event(ev):
         rec.count("evaluations")
         if ev.op in ("mutate", "crossover", "map"):
@@ -168,22 +182,32 @@ def run_ops(ctx, case, rec):
                 rec.count("arguments_compared")
                 rec.count(f"kind:{kind}")
                 s1 = snap_genotype(kind, model, g)
+                if lazy and ev.op == "map":
+                    # the one permitted effect: the mapping extends the genotype it maps
+                    if not dsge_extends(s0, s1):
+                        rec.violation(f"input-modified:{kind}:map:genes-rewritten", dict(wit, op=ev.op, failed=ev.exc is not None))
+                    continue
+                if lazy and ev.op in ("mutate", "crossover"):
+                    rec.count("operator_arguments_never_mapped" if not any(genes for _, _, genes in s0) else "operator_arguments_lazy")
                 if s0 != s1:
                     part = which_part(s0, s1) if kind == "tree" else "genes"
                     rec.violation(f"input-modified:{kind}:{ev.op}:{part}", dict(wit, op=ev.op, failed=ev.exc is not None))
         if ev.exc is None:
             for g in ev.outputs:
-                if kind == "dsge":
+                if kind == "dsge" and not lazy:
                     try:
                         rep.genotype_to_phenotype(g)  # extension happens here, before the first snapshot
                     except BaseException:  # noqa
                         pass
-                born[id(g)] = (g, snap_genotype(kind, model, g, rec))
+                if id(g) not in born or not lazy:
+                    born[id(g)] = (g, snap_genotype(kind, model, g, rec))
             if ev.outputs:
                 rec.distinct_add([kind, ev.op, core.h(repr(born[id(ev.outputs[0])][1]))])
 
     sess = workload.Session(kind, rep, src, on_event, before)
-    ops = workload.gen_ops(pyrandom.Random(case["seed"]), case["nops"])
+    ops = workload.gen_ops(pyrandom.Random(case["seed"]), case["nops"], map_after_create=not lazy)
+    if lazy:
+        rec.count("lazy_dsge_sessions")
     if case.get("crossover_heavy"):
         r2 = pyrandom.Random(case["seed"] + 1)
         ops = [["create"] for _ in range(6)] + [["map", i] for i in range(6)]
@@ -197,6 +221,10 @@ def run_ops(ctx, case, rec):
     for g, s0 in born.values():
         rec.count("end_of_history_compared")
         s1 = snap_genotype(kind, model, g)
+        if lazy:
+            if not dsge_extends(s0, s1):
+                rec.violation(f"changed-after-production:{kind}:genes-rewritten", dict(wit))
+            continue
         if s0 != s1:
             part = which_part(s0, s1) if kind == "tree" else "genes"
             rec.violation(f"changed-after-production:{kind}:{part}", dict(wit))
